@@ -144,7 +144,7 @@ def run_property(prop, tier, replay=None):
                             picked.append(groups[t].pop())
                         i += 1
                     scheds += picked
-            sf = os.path.join(wd, "%s.sched.jsonl" % fname)
+            sf = os.path.join(wd, "%s-%s.sched.jsonl" % (fname, fam.get("tag", "run")))
             with open(sf, "w") as f:
                 for s in scheds:
                     f.write(json.dumps(s) + "\n")
@@ -186,7 +186,8 @@ def run_property(prop, tier, replay=None):
     known_seen = {}
     for v in all_viol:
         matched = [s for s in v["sigs"] if s in known]
-        if matched:
+        # known only if every reason reported with the violation is a listed signature
+        if matched and len(matched) == len(v["sigs"]):
             known_seen.setdefault(matched[0], v)
             continue
         n_viol += 1
